@@ -1393,6 +1393,8 @@ class Var:
     def name(self, name: str):
         if name and self.value_node.name in ("", f"{self.name}_value"):
             self.value_node.name = f"{name}_value"  # type: ignore  # unfrozen
+
+        if name and self.var_value_node.name in ("", f"{self.name}_var_value"):
             self.var_value_node.name = f"{name}_var_value"  # type: ignore  # unfrozen
 
         if name and self._dist_node.name in ("", f"{self.name}_log_prob"):
